@@ -25,7 +25,7 @@ LEVEL = "exploration"
 BATCH = 1
 TIMEOUT = 900
 REQUIRED_OBS = ["toml_keys_compared", "cli_vs_api_trees_compared", "files_compared", "solver_dense", "solver_sparse", "solver_rosenbrock4", "solver_cusparse",
-                "with_replacement", "with_binding_or_yield", "with_modifiers", "with_allowed_species", "with_cooling", "with_bulk_prefix", "examples_rendered"]
+                "with_replacement", "with_binding_or_yield", "with_modifiers", "with_allowed_species", "with_cooling", "with_bulk_prefix", "examples_rendered", "with_explicitly_empty_list"]
 RULE = ("option sets for `naunet init`: element / pseudo-element lists (default, upper-case with replacement table), surface and bulk prefixes, "
         "allowed and extra species, binding-energy and yield tables, network files of every format, grain model, cooling lists, shielding "
         "tables, rate and ODE modifiers, every solver/method/device; list values with irregular spacing, trailing separators and empty "
@@ -62,6 +62,10 @@ def make_case(rng, i):
             r.update(tmin=10.0, tmax=9999.0, formula=3, code="NN", pseudo=None)
         lines[f"net.{fmt}"] = [encode.LINE[fmt](r) for r in rs]
         d.update(files=[f"net.{fmt}"], formats=[fmt], elements=list(chem.DEFAULT_ELEMENTS), pseudo_elements=list(DEF_PS))
+        if rng.random() < 0.3:
+            # an explicitly EMPTY list for an option whose default is not empty (the bundled minimal example does this)
+            d["pseudo_elements"] = []
+            d["explicit_empty"] = True
         if rng.random() < 0.6:
             d["cooling"] = rng.sample(["CIC_HI", "RC_HII", "CIC_HeI", "RC_HeI", "CEC_HI", "CEC_HeII"], rng.randint(1, 3))
             d["required"] = ["He++"] if rng.random() < 0.5 else []
@@ -168,7 +172,9 @@ def child(job, work, tag):
     jf.write_text(json.dumps(job))
     env = dict(os.environ, PYTHONHASHSEED="0", TQDM_DISABLE="1")
     try:
-        p = subprocess.run([common.PY, "-m", "verif.props.c20_child", str(jf)], capture_output=True, text=True, timeout=600, env=env, cwd=str(common.ROOT))
+        # no terminal: a command that starts asking questions gets EOF (and falls back to whatever it falls back to) instead of blocking
+        p = subprocess.run([common.PY, "-m", "verif.props.c20_child", str(jf)], capture_output=True, text=True, timeout=600, env=env, cwd=str(common.ROOT),
+                           stdin=subprocess.DEVNULL)
     except subprocess.TimeoutExpired:
         return {"error": "timeout", "harness": True}
     for line in p.stdout.splitlines()[::-1]:
@@ -272,6 +278,8 @@ def run_case(case, ctx):
     if d["species_kwargs"]["bulk_prefix"] != "@":
         obs["with_bulk_prefix"] += 1
         groups += 1
+    if d.get("explicit_empty"):
+        obs["with_explicitly_empty_list"] += 1
     if d.get("shielding") or d.get("grain_model"):
         groups += 1
     cli = child({"mode": "cli", "desc": d, "options": case["options"], "multi": case["multi"], "out": str(cli_dir)}, work, "cli")
